@@ -10,6 +10,7 @@ def _z3_check(text, timeout_ms, seed):
     import z3
     s = z3.Solver()
     s.set('timeout', timeout_ms)
+    s.set('rlimit', timeout_ms * 30000)
     s.set('random_seed', seed)
     s.from_string(text)
     t0 = time.time()
